@@ -1,1 +1,29 @@
 //! Hooks for property C39.
+//!
+//! Additive only. `trade_callback` below re-compiles the *current source text* of
+//! `instructions/trade_callback.rs` a second time inside this module (no logic is copied), so
+//! that the two private associated functions of `OnExecuted` become reachable by the thin
+//! wrappers at the end of the module.
+
+pub use gmsol_callback::CALLBACK_AUTHORITY_SEED;
+pub use gmsol_programs::gmsol_store::accounts::TradeData;
+pub use gmsol_programs::gmsol_store::types::PositionState;
+
+/// Second compilation of `instructions/trade_callback.rs` plus wrappers for its private items.
+pub mod trade_callback {
+    include!("../instructions/trade_callback.rs");
+
+    /// Calls the private `OnExecuted::update_leaderboard`.
+    pub fn update_leaderboard(comp: &mut Competition, part: &Participant) {
+        OnExecuted::update_leaderboard(comp, part)
+    }
+
+    /// Calls the private `OnExecuted::extend_competition_time`.
+    pub fn extend_competition_time(
+        comp: &mut Competition,
+        part: &Participant,
+        volume: u128,
+    ) -> Result<()> {
+        OnExecuted::extend_competition_time(comp, part, volume)
+    }
+}
